@@ -62,14 +62,14 @@ end CellB
 
 namespace Bits
 
-theorem bitsToBytes_bytesToBits (bs : List UInt8) : bitsToBytes (bytesToBits bs) = bs := by
+theorem bitsToBytes_bytesToBits_co (bs : List UInt8) : bitsToBytes (bytesToBits bs) = bs := by
   apply bytesToBits_inj
-  rw [bytesToBits_bitsToBytes]
+  rw [bytesToBits_bitsToBytes_pad]
   simp [padLen]
 
 theorem bitsToBytes_length (l : List Bool) : (bitsToBytes l).length = (l.length + 7) / 8 := by
-  have h := congrArg List.length (bytesToBits_bitsToBytes l)
-  simp only [bytesToBits_length, List.length_append, List.length_replicate, padLen] at h
+  have h := congrArg List.length (bytesToBits_bitsToBytes_pad l)
+  simp only [bytesToBits_length_co, List.length_append, List.length_replicate, padLen] at h
   omega
 
 end Bits
